@@ -621,6 +621,7 @@ def run(P, R, tier):
     trialreset_rule(P, R)
     savefree_rule(P, R)
     halfstep_rule(P, R)
+    cvodeorigin_rule(P, R)
     timeorigin_rule(P, R)
 
 
@@ -1255,3 +1256,40 @@ def halfstep_rule(P, R):
             R.violation(RULE, tag, "the pre-shift half step is given to cell `%s` (line %d) but kin_time is %s after the shift for `i == %s` (line %d): with the other flow "
                         "direction one end cell reacts for 1.5 and the other for 0.5 time steps per shift" % (ref, pre[0][0], "halved" if tag == "halve" else "restored", e, line),
                         file=f["file"], line=line, function=f["q"])
+
+
+def cvodeorigin_rule(P, R):
+    """While CVODE integrates, the rate programs see TOTAL_TIME / SIM_TIME through `rate_sim_time = cvode_rate_sim_time_start + t` (f and
+    Jac).  The origin must be the start of the step, rate_sim_time_start (plus the time already integrated after a restart), never the
+    end of the step (rate_sim_time): every assignment to cvode_rate_sim_time_start in run_reactions reads rate_sim_time_start and does not
+    read rate_sim_time; f and Jac add their own t to it.  A wrong origin leaves mass balance and reported times intact and shifts only the
+    amount reacted by time-dependent rate laws, from step 2 of a cumulative list on."""
+    RULE = "C12.cvodeorigin"
+    R.rule(RULE, "the time origin CVODE hands to the rate programs is the start of the step (rate_sim_time_start), and f / Jac add t to it", minimum=4)
+    f = P.one("Phreeqc::run_reactions")
+    n = 0
+    for x in T.walk(f["body"]):
+        if x[0] == "Bin" and x[2] == "=" and T.is_node(T.strip_casts(x[3])) and T.strip_casts(x[3])[0] == "Member" and T.strip_casts(x[3])[2] == "Phreeqc::cvode_rate_sim_time_start":
+            n += 1
+            mem = {y[2] for y in T.walk(x[4]) if y[0] == "Member"}
+            inst = "run_reactions@%d" % x[1]
+            if "Phreeqc::rate_sim_time_start" in mem and "Phreeqc::rate_sim_time" not in mem:
+                R.ok(RULE, inst, "origin = %s" % " ".join(T.text(x[4]).split())[:50])
+            else:
+                R.violation(RULE, inst, "cvode_rate_sim_time_start is assigned `%s`: the rate programs then see a clock that does not start at the beginning of the step - a rate law that "
+                            "uses TOTAL_TIME or SIM_TIME integrates over a shifted interval" % " ".join(T.text(x[4]).split())[:60], file=f["file"], line=x[1], function=f["q"])
+    for q in ("Phreeqc::f", "Phreeqc::Jac"):
+        for g in P.fns_named(q):
+            for x in T.walk(g["body"]):
+                if x[0] == "Bin" and x[2] == "=" and any(y[0] == "Member" and y[2] == "Phreeqc::rate_sim_time" for y in T.walk(x[3])):
+                    n += 1
+                    inst = "%s@%d" % (q.split("::")[-1], x[1])
+                    mem = {y[2] for y in T.walk(x[4]) if y[0] == "Member"}
+                    has_t = any(y[0] == "Ref" and y[2] == "param" and y[3] == "t" for y in T.walk(x[4]))
+                    if "Phreeqc::cvode_rate_sim_time_start" in mem and has_t:
+                        R.ok(RULE, inst, "rate_sim_time = cvode_rate_sim_time_start + t")
+                    else:
+                        R.violation(RULE, inst, "%s sets rate_sim_time to `%s`, not to the CVODE origin plus the integrator's time" % (q, " ".join(T.text(x[4]).split())[:50]),
+                                    file=g["file"], line=x[1], function=g["q"])
+    if n < 4:
+        R.anchor_missing(RULE, "only %d assignments of the CVODE time origin / clock found" % n)
